@@ -1356,8 +1356,8 @@ def main():
     stats['model_requests'] = len(requests)
     stats['model_second_round'] = n_flag
     stats['model_disagreements'] = n_dis
-    # two scripts at the same time (harness/concurrent.py): each must compute what it computes alone
-    import concurrent as _cc
+    # two scripts at the same time (harness/twoscripts.py): each must compute what it computes alone
+    import twoscripts as _cc
     _problems, _n = _cc.isolation_cases(chk.rng, 25 if chk.thorough else 3)
     stats['concurrent_pairs'] = _n
     chk.count(_n)
